@@ -251,7 +251,7 @@ def _block_nodes_and_rest(block_impl):
 def block_op_hides_binder(r):
     """extract_subproc / add_loop / specialize wrap or move a block that contains an
     Alloc or WindowStmt whose name is still used after the block."""
-    if r.get("op") not in ("extract_subproc", "add_loop", "specialize"):
+    if r.get("op") not in ("extract_subproc", "add_loop", "specialize", "replace"):
         return False
     p, op, args, env = _ctx(r)
     blk, rest = _block_nodes_and_rest(args[0]._impl)
